@@ -42,7 +42,8 @@ Definition mapper_get (t : list N) (id : N) : result N :=
 (** ** [compute_probs]: ids 1..n-1 sorted by probability (count / sum) descending, ties by id
     ascending.  The quotients are binary64 numbers in Rust; dividing by one positive sum is
     monotone and separates distinct integers below 2^53, and with sum = 0 every quotient is NaN
-    (all comparisons "equal"), so the order is the order on counts (trusted, DESIGN.md 3.3). *)
+    (all comparisons "equal"), so the order is the order on counts: theorem c13_float_order
+    (Proofs/FloatOrder.v, with Flocq's binary64 division and comparison). *)
 Definition cnt_of (cnt : list N) (i : N) : N := nth (N.to_nat i) cnt 0.
 Definition before (cnt : list N) (a b : N) : bool :=
   (cnt_of cnt b <? cnt_of cnt a) || ((cnt_of cnt a =? cnt_of cnt b) && (a <=? b)).
